@@ -1,8 +1,23 @@
 package types
 
 import (
+	codectypes "github.com/cosmos/cosmos-sdk/codec/types"
 	sdk "github.com/cosmos/cosmos-sdk/types"
 )
+
+var _ codectypes.UnpackInterfacesMessage = GenesisState{}
+
+// UnpackInterfaces implements UnpackInterfacesMessage.UnpackInterfaces: the routes of the tunnels are
+// Any values, which a genesis document decoded from JSON has to unpack before they can be used.
+func (gs GenesisState) UnpackInterfaces(unpacker codectypes.AnyUnpacker) error {
+	for _, t := range gs.Tunnels {
+		if err := t.UnpackInterfaces(unpacker); err != nil {
+			return err
+		}
+	}
+
+	return nil
+}
 
 // NewGenesisState creates a new GenesisState instance
 func NewGenesisState(
